@@ -136,6 +136,18 @@ def run_check(pid: str, tier: str) -> int:
             print(f"KNOWN-FINDING: property={pid} {sig}: {known[sig].get('what', vs[0]['what'])} ({len(vs)} occurrences)")
             continue
         new += 1
+        # a violation is only trusted if its replay is deterministic: execute it twice
+        rp = vs[0].get("replay") or {}
+        if hasattr(mod, "replay") and rp.get("func") and os.environ.get("QV_NO_REPLAY") != "1":
+            try:
+                a = json.dumps(js(mod.replay(rp)), sort_keys=True)
+                b = json.dumps(js(mod.replay(rp)), sort_keys=True)
+            except Exception as e:  # noqa: BLE001
+                a, b = f"replay raised {type(e).__name__}: {e}", None
+            if b is not None and a != b:
+                print(f"HARNESS-ERROR property={pid}: replay of {sig} is not deterministic", flush=True)
+                return 2
+            vs[0]["replay"] = {**rp, "replay_reproduces": (sig in a) if b is not None else a}
         d = REPLAYS / pid
         d.mkdir(parents=True, exist_ok=True)
         path = d / f"{_slug(sig.split('/', 1)[-1])}.json"
